@@ -94,7 +94,29 @@ func C12width(p *load.Program, run *report.Run) {
 					}
 					return false
 				}
-				if dep(st.Val, 0) {
+				// max(…, z.bits): the width never falls below the receiver's own — what the shared circuit path (bin)
+				// does as well
+				keeps := false
+				var inMax func(v ssa.Value, d int)
+				inMax = func(v ssa.Value, d int) {
+					c, ok := v.(*ssa.Call)
+					if !ok || d > 3 {
+						return
+					}
+					if bi, ok := c.Call.Value.(*ssa.Builtin); !ok || bi.Name() != "max" {
+						return
+					}
+					for _, a := range c.Call.Args {
+						if ld, ok := a.(*ssa.UnOp); ok && ld.Op == token.MUL {
+							if f2, ok := ld.X.(*ssa.FieldAddr); ok && f2.X == ssa.Value(fn.Params[0]) && structFieldName(f2.X.Type(), f2.Field) == "bits" {
+								keeps = true
+							}
+						}
+						inMax(a, d+1)
+					}
+				}
+				inMax(st.Val, 0)
+				if dep(st.Val, 0) && !keeps {
 					bad = p.Rel(st.Pos())
 				}
 			}
